@@ -7,6 +7,7 @@ import (
 	"encoding/binary"
 	"encoding/json"
 	"fmt"
+	"github.com/nspcc-dev/neo-go/pkg/compiler"
 	"github.com/nspcc-dev/neo-go/pkg/core/interop/interopnames"
 	"github.com/nspcc-dev/neo-go/pkg/io"
 	"github.com/nspcc-dev/neo-go/pkg/smartcontract"
@@ -15,6 +16,7 @@ import (
 	"github.com/nspcc-dev/neo-go/pkg/smartcontract/nef"
 	"github.com/nspcc-dev/neo-go/pkg/vm/emit"
 	"math/big"
+	"os"
 	"sort"
 	"strings"
 	"testing"
@@ -438,6 +440,53 @@ func TestCheck(t *testing.T) {
 				run.Violation("producer-rejected-own-block:withdraw-with-redeposit", fmt.Sprint("h", hi), p.Rejected.Error(), nil)
 			}
 		}
+		// a contract holding NEO votes; the GAS reward minted by that very vote enters
+		// its payment callback, which votes again for another candidate: the votes of
+		// every candidate and the voters count must match the accounts afterwards
+		if hist.P.Rejected == nil && hi%2 == 1 {
+			p := hist.P
+			var cands []*vchain.User
+			for _, u := range p.Users {
+				if u.Candidate && !u.Blocked {
+					cands = append(cands, u)
+				}
+			}
+			var owner *vchain.User
+			for _, u := range p.Users {
+				nb, _ := p.BC.GetGoverningTokenBalance(u.Hash())
+				if !u.Blocked && nb.Int64() > 5000 && p.BC.GetUtilityTokenBalance(u.Hash(), util.Uint160{}).Int64() > 200_0000_0000 {
+					owner = u
+					break
+				}
+			}
+			if len(cands) >= 2 && owner != nil {
+				c := revoterContract(t, owner.Hash(), fmt.Sprintf("revoter-%d", hi))
+				nb, _ := c.NEF.Bytes()
+				mb, _ := json.Marshal(c.Manifest)
+				ok := p.AddBlock(p.Call("deploy-revoter", []neotest.Signer{owner.S}, p.MgmtH, "deploy", nb, mb, nil)) != nil &&
+					p.AddBlock(p.Call("fund-revoter-neo", []neotest.Signer{owner.S}, p.NeoH, "transfer", owner.Hash(), c.Hash, int64(1000), nil)) != nil &&
+					p.AddBlock() != nil && p.AddBlock() != nil &&
+					p.AddBlock(p.Call("arm-revoter", []neotest.Signer{owner.S}, c.Hash, "arm", cands[1].Acc.PublicKey().Bytes())) != nil &&
+					p.AddBlock(p.Call("revoter-votes", []neotest.Signer{owner.S}, c.Hash, "vote", cands[0].Acc.PublicKey().Bytes())) != nil
+				if !ok {
+					run.Violation("producer-rejected-own-block:vote-from-reward-callback", fmt.Sprint("h", hi), p.Rejected.Error(), nil)
+				} else if strings.Contains(strings.Join(p.KindLog[len(p.KindLog)-1], " "), "revoter-votes:HALT") {
+					run.Obs("votes_cast_again_from_the_reward_payment_callback", 1)
+				} else {
+					run.Obs("revoter_scenarios_not_reaching_the_vote", 1)
+					if os.Getenv("C05_DEBUG") != "" {
+						b := p.Blocks[len(p.Blocks)-1]
+						for _, tx := range b.Transactions {
+							if aer, err := p.BC.GetAppExecResults(tx.Hash(), trigger.Application); err == nil && len(aer) == 1 {
+								fmt.Println("DEBUG revoter fault:", aer[0].FaultException)
+							}
+						}
+					}
+				}
+			} else if os.Getenv("C05_DEBUG") != "" {
+				fmt.Println("DEBUG revoter: no candidates/owner", len(cands), owner != nil)
+			}
+		}
 		// a signed block carrying a transaction its sender cannot pay for, offered to a
 		// node that does not verify transactions of blocks: whether it refuses the
 		// block or not, no balance may go negative and the supply laws hold
@@ -508,4 +557,45 @@ func TestCheck(t *testing.T) {
 	run.Obs("transfer_events_matched", cnt.transferEvents)
 	run.Obs("mint_events", cnt.mints)
 	run.Obs("burn_events", cnt.burns)
+}
+
+// revoterSrc: a contract that holds NEO and votes; when the GAS reward of its
+// own vote arrives (a mint: no sender) while it is armed, it votes again, for
+// the candidate it was armed with.
+const revoterSrc = `package revoter
+
+import (
+	"github.com/nspcc-dev/neo-go/pkg/interop"
+	"github.com/nspcc-dev/neo-go/pkg/interop/contract"
+	"github.com/nspcc-dev/neo-go/pkg/interop/native/neo"
+	"github.com/nspcc-dev/neo-go/pkg/interop/runtime"
+	"github.com/nspcc-dev/neo-go/pkg/interop/storage"
+)
+
+func OnNEP17Payment(from interop.Hash160, amount int, data any) {
+	ctx := storage.GetContext()
+	second := storage.Get(ctx, "second")
+	if from == nil && second != nil {
+		storage.Delete(ctx, "second")
+		contract.Call(interop.Hash160(neo.Hash), "vote", contract.All, runtime.GetExecutingScriptHash(), second.(interop.PublicKey))
+	}
+}
+
+func Arm(second interop.PublicKey) {
+	storage.Put(storage.GetContext(), "second", second)
+}
+
+// Vote votes through System.Contract.Call with all flags (the method token of
+// the interop wrapper would leave NEO without AllowCall, and the callback
+// below could call nothing).
+func Vote(first interop.PublicKey) bool {
+	return contract.Call(interop.Hash160(neo.Hash), "vote", contract.All, runtime.GetExecutingScriptHash(), first).(bool)
+}
+`
+
+func revoterContract(t testing.TB, sender util.Uint160, name string) *neotest.Contract {
+	return neotest.CompileSource(t, sender, strings.NewReader(revoterSrc), &compiler.Options{
+		Name: name, NoEventsCheck: true, NoPermissionsCheck: true, NoStandardCheck: true,
+		Permissions: []manifest.Permission{*manifest.NewPermission(manifest.PermissionWildcard)},
+	})
 }
